@@ -12,7 +12,7 @@ BASE = NS                      # offset added to every time stamp handed to the 
 EPS = 4 * MS                   # perturbation of the measured times for the robust-decision mask
 MARGIN = 30 * MS               # margin of the spec-level predicates
 OPC = {"fail": 0, "succ": 1, "query": 2, "ban": 3, "unban": 4, "cleanup": 5, "bladd": 6, "blrm": 7, "wladd": 8,
-       "wlrm": 9, "allowed": 10, "blcleanup": 11, "allowip": 12, "rlcleanup": 13, "hs": 14}
+       "wlrm": 9, "allowed": 10, "blcleanup": 11, "allowip": 12, "rlcleanup": 13, "hs": 14, "restart": 15}
 DUR_OPS = ("ban", "bladd")
 CURRENT = (1, 1, 0, 0)        # [cond_unban, keep_stronger, late_goroutines, anon_resets]
 # explanations of an observation by a defect the model keeps as a pinned variant: (variant flags, finding keys)
@@ -283,7 +283,69 @@ def gen_anon(rng, cfg):
     return s.ops
 
 
-GENS = [("firstfail", gen_firstfail, 2), ("anon", gen_anon, 2), ("lockout", gen_lockout, 5), ("mix", gen_mix, 6), ("perm", gen_perm, 2), ("blacklist", gen_blacklist, 3),
+def gen_restart(rng, cfg):
+    """the lists are persisted: permanent / temporary (time left, lapsed) exact and range entries, whitelist entries,
+    restarts (every component rebuilt over the same storage) at various points"""
+    s = Script(rng)
+    exact = [5, 6, 7]                      # exact entries only on addresses of group 0
+    rng.shuffle(exact)
+    rk = 1002                              # range entry 10.1.0.32/28: addresses 40, 41 (never given exact entries)
+    durs = [0, 0, 120, 170, 420, 620]
+    s.op("bladd", exact[0], rng.choice(durs))
+    if rng.random() < 0.8:
+        s.op("bladd", rk, rng.choice([0, 0, 170, 620]))
+    if rng.random() < 0.6:
+        s.op("bladd", exact[1], rng.choice(durs))
+    if rng.random() < 0.3:
+        s.op("wladd", rng.choice([exact[1], 41, 1002, 9]))
+    if rng.random() < 0.4:
+        s.op("ban", exact[0], rng.choice([0, 620]))
+    for _ in range(rng.randrange(2, 5)):
+        s.wait(rng.choice([1, 1, 2, 3, 4]))
+        s.op("restart", 0)
+        probes = [exact[0], exact[1], 40, 41, 50]
+        rng.shuffle(probes)
+        for a in probes[:rng.randrange(2, 6)]:
+            s.op("hs", a, rng.choice([0, 1])) if rng.random() < 0.25 else s.op("allowed", a)
+        if rng.random() < 0.3:
+            s.op("query", exact[0])
+        r = rng.random()
+        if r < 0.15:
+            s.op("blrm", rng.choice([exact[0], rk]))
+        elif r < 0.3:
+            s.op("bladd", exact[2], rng.choice(durs))
+        elif r < 0.4:
+            s.op("blcleanup")
+        elif r < 0.5:
+            s.op("wlrm", rng.choice([exact[1], 41, 1002]))
+    s.wait(rng.choice([1, 9]))
+    for a in (exact[0], 40, exact[2]):
+        s.op("allowed", a)
+    return s.ops
+
+
+def gen_restart_mix(rng, cfg):
+    """failures, bans and admissions with a restart in between (memory-only state)"""
+    s = Script(rng)
+    a = 1
+    for _ in range(cfg["maxf"]):
+        s.op("fail", a)
+    s.op("query", a)
+    s.op("allowip", a, cfg["burst"])
+    s.wait(rng.choice([1, 2]))
+    s.op("restart", 0)
+    s.op("query", a)
+    s.op("allowip", a, 1)
+    for _ in range(cfg["maxf"] - 1):
+        s.op("fail", a)
+    s.op("query", a)
+    s.wait(1)
+    s.op("fail", a)
+    s.op("query", a)
+    return s.ops
+
+
+GENS = [("restart", gen_restart, 4), ("restartmix", gen_restart_mix, 1), ("firstfail", gen_firstfail, 2), ("anon", gen_anon, 2), ("lockout", gen_lockout, 5), ("mix", gen_mix, 6), ("perm", gen_perm, 2), ("blacklist", gen_blacklist, 3),
         ("bucket", gen_bucket, 3), ("reban", gen_reban, 2)]
 
 
@@ -347,92 +409,21 @@ def predict_all(cases, outs, flags):
 # the property's own predicates, evaluated on the real code's answers with measured times (conservative
 # margins: a requirement is only imposed well inside an interval, a justification accepted well outside)
 # ------------------------------------------------------------------------------------------------
+def cidr_of(ip):
+    return 1000 + ip // 16 if ip < 1000 else ip
+
+
+GLOBAL_OPS = ("cleanup", "blcleanup", "rlcleanup", "restart")
+
+
 def spec_check(case, obs):
     """returns list of (kind, step index, text)"""
     cfg, ops = case["cfg"], case["ops"]
     W, D = cfg["window_ms"] * MS, cfg["ban_ms"] * MS
     bad = []
-    ips = sorted({o["ip"] for o in ops})
-    for ip in ips:
-        idx = [i for i, o in enumerate(ops) if o["ip"] == ip or o["op"] in ("cleanup", "blcleanup", "rlcleanup")]
-        fails = []            # indices of failures since the last success
-        life = 0              # failures since the last success or clean-up (a clean-up may drop the record and its total)
-        total = 0             # failures ever (liberal justification of a permanent ban)
-        must = []             # (from_t, until_t or None, why): ban required in [from, until]
-        causes = []           # (from_t, until_t or None): ban justified in [from, until]
-        wl = False
-        blmust, blcauses = [], []
-        adm = []              # (t0, t1, tokens admitted)
-        for i in idx:
-            o, x = ops[i], obs[i]
-            name = o["op"]
-            is_fail = o["ip"] == ip and (name == "fail" or (name == "hs" and x["r"] == 3))
-            if o["ip"] != ip and name != "cleanup":
-                continue
-            if name == "hs" and x["r"] in (0, 1, 2) and x["cc"] != 0:
-                bad.append(("gate-order", i, "handshake refused at gate %d still consulted the credential store %d time(s)" % (x["r"] + 1, x["cc"])))
-            # ---- requirements on this step
-            if name in ("query", "hs"):
-                for frm, until, why in must:
-                    if x["t0"] >= frm and (until is None or x["t1"] <= until):
-                        ok = x["r"] == 1 if name == "query" else x["r"] in (0, 1)
-                        if not ok:
-                            bad.append(("locked-out", i, "address must be refused (%s) but step %d %s answered %d" % (why, i, name, x["r"])))
-                        break
-                if name == "query" and x["r"] == 1 or name == "hs" and x["r"] == 1:
-                    if not any(x["t1"] >= frm and (until is None or x["t0"] <= until) for frm, until in causes):
-                        bad.append(("false-refusal", i, "address refused as banned at step %d without %d failures in a window, a lifetime total of %d, or a manual ban in force" % (i, cfg["maxf"], cfg["perm"])))
-            if name in ("allowed", "hs"):
-                refused = x["r"] == 0
-                for frm, until in blmust:
-                    if not wl and x["t0"] >= frm and (until is None or x["t1"] <= until) and not refused:
-                        bad.append(("blacklist", i, "blacklisted, not whitelisted address was let through at step %d" % i))
-                        break
-                if refused and not any(x["t1"] >= frm and (until is None or x["t0"] <= until) for frm, until in blcauses):
-                    bad.append(("blacklist-false-refusal", i, "address refused as blacklisted at step %d without an entry in force" % i))
-            # ---- effects of this step
-            if name == "cleanup":
-                life = 0
-            if o["ip"] != ip:
-                continue
-            if is_fail:
-                fails.append(i)
-                total += 1
-                life += 1
-                if life >= cfg["perm"]:
-                    must.append((x["t1"], None, "lifetime total of %d failures reached at step %d" % (cfg["perm"], i)))
-                k = cfg["maxf"]
-                if len(fails) >= k and x["t1"] - obs[fails[-k]]["t0"] < W - MARGIN:
-                    must.append((x["t1"], x["t0"] + D - MARGIN, "%d failures within the window ending at step %d" % (k, i)))
-                if len(fails) >= k and x["t0"] - obs[fails[-k]]["t1"] < W + MARGIN:
-                    causes.append((x["t0"], x["t1"] + D + MARGIN))
-                if total >= cfg["perm"]:
-                    causes.append((x["t0"], None))
-            elif name == "succ":
-                # RecordSuccess = a verified challenge response.  A successful ANONYMOUS registration (hs answer 4)
-                # proves no credential and must not clear the record.
-                fails = []
-                life = 0
-            elif name == "ban":
-                d = o["arg"] * MS
-                must.append((x["t1"], None if d == 0 else x["t0"] + d - MARGIN, "manual ban at step %d" % i))
-                causes.append((x["t0"], None if d == 0 else x["t1"] + d + MARGIN))
-            elif name == "unban":
-                must = []
-            elif name == "bladd":
-                d = o["arg"] * MS
-                blmust = [(x["t1"], None if d == 0 else x["t0"] + d - MARGIN)]
-                blcauses.append((x["t0"], None if d == 0 else x["t1"] + d + MARGIN))
-            elif name == "blrm":
-                blmust = []
-            elif name == "wladd":
-                wl = True
-            elif name == "wlrm":
-                wl = False
-            if name == "allowip" and x["r"] == 1:
-                adm.append((x["t0"], x["t1"], o["arg"]))
-            elif name == "hs" and o["arg"] in (1, 2) and x["r"] in (3, 4):
-                adm.append((x["t0"], x["t1"], 1))
+    ips = sorted({o["ip"] for o in ops if o["ip"] < 1000 and o["op"] not in GLOBAL_OPS})
+
+    def bucket_bound(ip, adm):
         for a in range(len(adm)):
             tot = 0
             for b in range(a, len(adm)):
@@ -440,10 +431,112 @@ def spec_check(case, obs):
                 if tot > cfg["burst"] + cfg["rate"] * (adm[b][1] - adm[a][0]) / NS + 1e-6:
                     bad.append(("bucket", a, "address %d: %d tokens admitted within %.1f ms (rate %d/s, burst %d)" % (
                         ip, tot, (adm[b][1] - adm[a][0]) / MS, cfg["rate"], cfg["burst"])))
-                    break
-            else:
+                    return
+
+    for ip in ips:
+        keys = (ip, cidr_of(ip))
+        fails = []            # indices of failures since the last verified success / restart
+        life = 0              # failures since the last success, clean-up (may drop the record and its total) or restart
+        total = 0             # failures ever (liberal justification of a permanent ban)
+        must = []             # [from_t, until_t or None, why, restarted]: ban required in [from, until]
+        causes = []           # (from_t, until_t or None): ban justified in [from, until]
+        wl = {}               # key -> bool
+        ent = {}              # key -> (t0, t1, dur ns): the entry in force for that key according to the admin calls
+        had_exact = False     # an exact entry was added and not removed by the admin (it may linger, expired)
+        blcauses = []
+        adm = []              # (t0, t1, tokens admitted) since the last restart
+        for i, (o, x) in enumerate(zip(ops, obs)):
+            name = o["op"]
+            if name not in GLOBAL_OPS and o["ip"] not in keys:
                 continue
-            break
+            mine = o["ip"] == ip and name not in GLOBAL_OPS
+            is_fail = mine and (name == "fail" or (name == "hs" and x["r"] == 3))
+            if mine and name == "hs" and x["r"] in (0, 1, 2) and x["cc"] != 0:
+                bad.append(("gate-order", i, "handshake refused at gate %d still consulted the credential store %d time(s)" % (x["r"] + 1, x["cc"])))
+            # ---- requirements on this step
+            if mine and name in ("query", "hs"):
+                for frm, until, why, restarted in must:
+                    if x["t0"] >= frm and (until is None or x["t1"] <= until):
+                        ok = x["r"] == 1 if name == "query" else x["r"] in (0, 1)
+                        if not ok:
+                            if restarted:
+                                bad.append(("ban-lost-on-restart", i, "address must be refused (%s) but after a restart step %d %s answered %d" % (why, i, name, x["r"])))
+                            else:
+                                bad.append(("locked-out", i, "address must be refused (%s) but step %d %s answered %d" % (why, i, name, x["r"])))
+                        break
+                if x["r"] == 1:
+                    if not any(x["t1"] >= frm and (until is None or x["t0"] <= until) for frm, until in causes):
+                        bad.append(("false-refusal", i, "address refused as banned at step %d without %d failures in a window, a lifetime total of %d, or a manual ban in force" % (i, cfg["maxf"], cfg["perm"])))
+            if mine and name in ("allowed", "hs"):
+                refused = x["r"] == 0
+                if not wl.get(keys[0]) and not wl.get(keys[1]) and not refused:
+                    for k in keys:
+                        if k in ent:
+                            a0, a1, d = ent[k]
+                            if x["t0"] >= a1 and (d == 0 or x["t1"] <= a0 + d - MARGIN):
+                                if k != ip and had_exact:
+                                    bad.append(("expired-exact-entry-shadows-cidr", i, "address %d is inside the blacklisted range (key %d) but an exact entry for it, added earlier and possibly expired, is found first: let through at step %d" % (ip, k, i)))
+                                else:
+                                    bad.append(("blacklist", i, "blacklisted (%s), not whitelisted address %d was let through at step %d" % (
+                                        "range entry" if k != ip else "exact entry", ip, i)))
+                                break
+                if refused and not any(x["t1"] >= frm and (until is None or x["t0"] <= until) for frm, until in blcauses):
+                    bad.append(("blacklist-false-refusal", i, "address refused as blacklisted at step %d without an entry in force" % i))
+            # ---- effects of this step
+            if name == "cleanup":
+                life = 0
+            elif name == "restart":
+                # memory-only state is gone; the persisted lists (ent, wl) stay.  The limiter starts afresh.
+                fails, life = [], 0
+                for m in must:
+                    m[3] = True
+                bucket_bound(ip, adm)
+                adm = []
+            if name in GLOBAL_OPS:
+                continue
+            key = o["ip"]
+            if is_fail:
+                fails.append(i)
+                total += 1
+                life += 1
+                if life >= cfg["perm"]:
+                    must.append([x["t1"], None, "lifetime total of %d failures reached at step %d" % (cfg["perm"], i), False])
+                k = cfg["maxf"]
+                if len(fails) >= k and x["t1"] - obs[fails[-k]]["t0"] < W - MARGIN:
+                    must.append([x["t1"], x["t0"] + D - MARGIN, "%d failures within the window ending at step %d" % (k, i), False])
+                if len(fails) >= k and x["t0"] - obs[fails[-k]]["t1"] < W + MARGIN:
+                    causes.append((x["t0"], x["t1"] + D + MARGIN))
+                if total >= cfg["perm"]:
+                    causes.append((x["t0"], None))
+            elif mine and name == "succ":
+                # RecordSuccess = a verified challenge response.  A successful ANONYMOUS registration (hs answer 4)
+                # proves no credential and must not clear the record.
+                fails = []
+                life = 0
+            elif mine and name == "ban":
+                d = o["arg"] * MS
+                must.append([x["t1"], None if d == 0 else x["t0"] + d - MARGIN, "manual ban at step %d" % i, False])
+                causes.append((x["t0"], None if d == 0 else x["t1"] + d + MARGIN))
+            elif mine and name == "unban":
+                must = []
+            elif name == "bladd":
+                d = o["arg"] * MS
+                ent[key] = (x["t0"], x["t1"], d)
+                had_exact = had_exact or key == ip
+                blcauses.append((x["t0"], None if d == 0 else x["t1"] + d + MARGIN))
+            elif name == "blrm":
+                ent.pop(key, None)
+                if key == ip:
+                    had_exact = False
+            elif name == "wladd":
+                wl[key] = True
+            elif name == "wlrm":
+                wl[key] = False
+            if mine and name == "allowip" and x["r"] == 1:
+                adm.append((x["t0"], x["t1"], o["arg"]))
+            elif mine and name == "hs" and o["arg"] in (1, 2) and x["r"] in (3, 4):
+                adm.append((x["t0"], x["t1"], 1))
+        bucket_bound(ip, adm)
     return bad
 
 
@@ -533,6 +626,7 @@ def run(ctx, only_cases=None):
     tcs, tos = [c for c, _ in tl], [o for _, o in tl]
     mism, steps, robust_steps, nfail = [], 0, 0, 0
     explained = {}
+    known_spec = {}
     try:
         cur = predict_all(tcs, tos, CURRENT) if tcs else []
         alt = {}
@@ -568,10 +662,18 @@ def run(ctx, only_cases=None):
                                   % (KEY_TEXT[k], diff[0], obs[diff[0]], pred[diff[0]]),
                                   {"case": c, "observed": o["obs"], "model": pred, "mask": mask})
                 continue
-            if spec_bad:
+            # recorded findings first (cheap, never hide anything else), then new predicate failures, then the model diff
+            seen_known = set()
+            for kind, step, text in spec_bad:
+                if kind in ctx.known and kind not in seen_known:
+                    seen_known.add(kind)
+                    known_spec[kind] = known_spec.get(kind, 0) + 1
+                    ctx.violation(kind, "real code: " + text, {"case": c, "observed": o["obs"], "step": step})
+            fresh = [b for b in spec_bad if b[0] not in ctx.known]
+            if fresh:
                 nfail += 1
                 if nfail <= 3:
-                    kind, step, text = spec_bad[0]
+                    kind, step, text = fresh[0]
 
                     def still(t, to, kind=kind):
                         return any(kd == kind for kd, _, _ in spec_check(t, to["obs"]))
@@ -579,7 +681,7 @@ def run(ctx, only_cases=None):
                     so = vlib.run_harness(binary, [small], timeout=120)[0]
                     sb = [b for b in spec_check(small, so["obs"]) if b[0] == kind]
                     if not sb:
-                        small, so, sb = c, o, [spec_bad[0]]
+                        small, so, sb = c, o, [fresh[0]]
                     ctx.violation(kind, "real code: " + sb[0][2], {"case": small, "observed": so["obs"], "step": sb[0][1]})
             elif diff:
                 mism.append((c, o, pred, mask, diff))
@@ -637,13 +739,13 @@ def run(ctx, only_cases=None):
         "race_trials_entry_lost": sum(o["lost"] for o in races),
         "inflight_schedules": len(infl),
         "burst_first_request_rounds": sum(len(o["admitted"]) for c, o in zip(cases, outs) if c["kind"] == "burst"), "model_vs_impl_cases": len(tcs), "model_vs_impl_mismatches": len(mism),
-        "cases_explained_by_pinned_variant": explained, "impl_property_failures": nfail,
+        "cases_explained_by_pinned_variant": explained, "cases_with_recorded_predicate_findings": known_spec, "impl_property_failures": nfail,
         "input_distribution": dist, "generated_file_changed": gen_changed,
     })
     ctx.assumptions += [
         "each mutex-protected section of brute_force_protector.go / ip_manager.go is one atomic step; RecordFailure = 2 steps, cleanup = 2 steps, HandleHandshake = one step per gate",
         "rate limiter: get-or-create + Take modelled as one step (the window between the map lookup and Take against a concurrent collection is not modelled); float64 token arithmetic replaced by exact integers, near-threshold decisions are masked as ambiguous",
-        "blacklist/whitelist entries are exact addresses (CIDR matching of ip_manager.go findInList is not modelled)",
+        "blacklist/whitelist: exact entries and one /28 range entry per address (overlapping ranges are not modelled: findInList iterates a Go map); restart = all components rebuilt over the same memory storage (process restart; a second live manager on a shared store is not modelled)",
         "goroutine scheduling of the spawned unban is replaced by runner threads that may run it at any later point",
         "real clock: answers compared only where the model answer is stable under +-4 ms perturbation of the measured call times",
     ]
